@@ -53,3 +53,12 @@ Theorem c09_label_matrix_unit_columns (A : Type) (lab : A -> option nat) (E : li
   (0 < count A lab E c)%nat -> rsuml A (fun e => entry A lab E e c * entry A lab E e c) E = 1.
 Proof. exact (column_unit_norm A lab E c). Qed.
 Print Assumptions c09_label_matrix_unit_columns.
+
+(** C_trans carries the constant 1/sqrt(n_lp): with every translation class of size n_lp (c09_class_has_nlp_distinct_members)
+    its columns are orthonormal. *)
+Theorem c09_uniform_label_matrix (A : Type) (lab : A -> option nat) (E : list A) (n : nat) c c' :
+  (0 < n)%nat -> count A lab E c = n ->
+  rsuml A (fun e => entry_const A lab n e c * entry_const A lab n e c) E = 1 /\
+  (c <> c' -> rsuml A (fun e => entry_const A lab n e c * entry_const A lab n e c') E = 0).
+Proof. intros Hn Hc. split; [exact (uniform_columns_unit A lab E n c Hc Hn) | exact (uniform_columns_orthogonal A lab E n c c')]. Qed.
+Print Assumptions c09_uniform_label_matrix.
